@@ -456,6 +456,12 @@ def padded_struct_packets(names):
     out.append(par)
     out.append(packet(names.new("RxC"), [typedef("a", slot1["id"]), typedef("b", slot1["id"])], parent_id=par["id"],
                       constraints=[constraint("k", 1)]))
+    # chunks made ONLY of reserved fields, several of them (a generator that special-cases
+    # "nothing to extract" must still guard the length): last, first, in the middle, wide
+    out.append(packet(names.new("RxR"), [scalar("v", 8), reserved(3), reserved(5)]))
+    out.append(packet(names.new("RxR"), [reserved(4), reserved(4), scalar("t", 8)]))
+    out.append(packet(names.new("RxR"), [scalar("a", 16), reserved(7), reserved(9), reserved(8), scalar("t", 8)]))
+    out.append(struct(names.new("RxR"), [reserved(1), reserved(31)]))
     return out
 
 
